@@ -77,6 +77,13 @@ impl NotifyCancel for Never {
     }
 }
 
+fn never_stopping() -> StateWatcher {
+    let (sender, receiver) = tokio::sync::watch::channel(fuel_core_services::State::Started);
+    // keep the channel open for the whole process
+    std::mem::forget(sender);
+    StateWatcher::from(receiver)
+}
+
 fn runtime() -> &'static tokio::runtime::Runtime {
     static RT: OnceLock<tokio::runtime::Runtime> = OnceLock::new();
     RT.get_or_init(|| {
@@ -333,7 +340,7 @@ pub fn run_c39(input: &T) -> T {
             off_chain: GenesisDatabase::<OffChain>::in_memory(),
         };
         let gblock = genesis_block(&reader);
-        let imported = rt.block_on(SnapshotImporter::import(dst.clone(), gblock, reader, StateWatcher::default()));
+        let imported = rt.block_on(SnapshotImporter::import(dst.clone(), gblock, reader, never_stopping()));
         if imported.is_err() {
             return fail("import");
         }
